@@ -2,6 +2,7 @@ import Librfn.Model.Bintree
 import Librfn.Spec.Tree
 import Librfn.Lemmas.Bintree
 import Librfn.Lemmas.BintreeMorris
+import Librfn.Lemmas.BintreePost
 /-!
 # C11 — tree iterators visit in the promised order, restore the tree, and free safely
 
@@ -125,6 +126,93 @@ theorem pre_order_each_node_once (isList : Nat → Bool) (t : Tree) (h : Heap) (
   refine ⟨out, it', h1, ?_, by rw [h2]; intro i; exact mem_preorder t i⟩
   rw [h2]; exact nodup_preorder t hd
 
+/-! ## post-order -/
+
+/-- **the tagging pass sets the tag of every node** (and nothing else): after the in-order pass of
+    `bintree_iterate_post_order`, the heap is the original one with every node of `t` tagged. -/
+theorem tagging_pass_tags_every_node (isList : Nat → Bool) (t : Tree) (h : Heap) (it0 : Iter) (g : Nat)
+    (hr : ReprK (fun _ => false) h t none) (hd : Distinct t) (hg : 2 * size t + 2 ≤ g) :
+    ∃ it2, (match iterateInOrder g h it0 (root t) with
+        | .error e => (.error e : Except Err (Heap × Iter))
+        | .ok (r, h1, it1) => tagLoop isList g g h1 it1 r) = .ok (tagAll true h (inorder t), it2) ∧
+      it2.next = .inOrder ∧ it2.parent = it0.parent := by
+  have hrun := inRun_tree true g t h (g - size t - 1) (by omega) hd hr
+  have hcalls : size t + (g - size t - 1 + 1) = g := by omega
+  rw [hcalls] at hrun
+  obtain ⟨it2, htl, hn2, hp2⟩ := tagLoop_of_inRun isList g g g h (root t) { it0 with next := .inOrder, curr := root t }
+    (inorder t) _ rfl hrun
+  refine ⟨it2, ?_, hn2, hp2⟩
+  simp only [iterateInOrder, inOrderIterator]
+  cases hl : inOrderLoop g g h (root t) with
+  | error e => rw [hl] at htl; simp at htl
+  | ok res =>
+    obtain ⟨r, h1, c1⟩ := res
+    rw [hl] at htl
+    simpa using htl
+
+/-- **the post-order walk** (`descend`): whenever the visited set is the first `j` nodes of the post-order
+    sequence, one run of `post_order_iterator`'s loop from the root returns the first unvisited node in
+    post-order together with its true parent, and untags it. -/
+theorem descend_returns_first_unvisited (t : Tree) (j : Nat) (h : Heap) (prev : Ptr) (fuel : Nat)
+    (hf : size t ≤ fuel) (hj : j < size t) (hr : ReprV h t j) :
+    ∃ y p, (postorderP prev t)[j]? = some (y, p) ∧
+      postOrderLoop fuel h (root t) prev = .ok (some (y, p), setTag h y false) :=
+  postOrderLoop_spec t j h prev fuel hf hj hr
+
+/-- untagging the returned node advances the visited prefix -/
+theorem untag_advances_prefix (t : Tree) (j : Nat) (h : Heap) (y : Nat) (hd : Distinct t) (hj : j < size t)
+    (hy : (postorder t)[j]? = some y) (hr : ReprV h t j) : ReprV (setTag h y false) t (j + 1) :=
+  reprV_untag t j h y hd hj hy hr
+
+/-- **Post-order iteration is correct and restores the tree, for every shape** (`postorder_restores`):
+    `bintree_iterate_post_order` + `bintree_next` until NULL returns exactly the post-order sequence, each
+    node with its true parent in `iter.parent` (NULL for the root), and the final heap is the initial
+    heap — every tag set by the tagging pass has been cleared and no link has changed. -/
+theorem post_order_iterator_correct (isList : Nat → Bool) (t : Tree) (h : Heap) (p : Ptr) (it0 : Iter) (g : Nat)
+    (hr : Repr h t p) (hd : Distinct t) (hg : 2 * size t + 2 ≤ g) :
+    ∃ it', iterateAll isList g .postOrder h it0 p = .ok (postorderP none t, h, it') := by
+  obtain ⟨rfl, hr⟩ := hr
+  obtain ⟨it2, htl, hn2, _⟩ := tagging_pass_tags_every_node isList t h it0 g hr hd hg
+  -- after the tagging pass nothing is visited
+  have hv0 : ReprV (tagAll true h (inorder t)) t 0 := by
+    apply reprV_of_reprK t _ (reprK_tagAll true (inorder t) t none hr)
+    intro i hi; simp [hi]
+  obtain ⟨hf, it', hpd, hfin, hframe⟩ := post_drain isList g t hd (by omega) (size t) 0 _
+    { it2 with next := .postOrder, curr := root t } g (by omega) (by omega) rfl
+    (by cases t with
+        | nil => rfl
+        | node l x r =>
+          have : 0 < size (.node l x r) := by simp only [size]; omega
+          rw [if_pos this]) hv0
+  -- the final heap is the initial heap
+  have hback : hf = h := by
+    funext i
+    by_cases hi : i ∈ inorder t
+    · exact reprK_unique t none hr (reprK_of_reprV t (size t) (Nat.le_refl _) hfin) i hi
+    · rw [hframe i hi, tagAll_other _ _ _ _ hi]
+  subst hback
+  refine ⟨it', ?_⟩
+  simp only [iterateAll, iterate, iteratePostOrder]
+  cases hio : iterateInOrder g hf it0 (root t) with
+  | error e => rw [hio] at htl; simp at htl
+  | ok res =>
+    obtain ⟨r, h1, it1⟩ := res
+    rw [hio] at htl
+    simp only at htl ⊢
+    rw [htl]
+    simp only [List.drop_zero] at hpd
+    exact hpd
+
+/-- the nodes come in the order of the recursive post-order traversal, each exactly once -/
+theorem post_order_each_node_once (isList : Nat → Bool) (t : Tree) (h : Heap) (p : Ptr) (it0 : Iter) (g : Nat)
+    (hr : Repr h t p) (hd : Distinct t) (hg : 2 * size t + 2 ≤ g) :
+    ∃ out it', iterateAll isList g .postOrder h it0 p = .ok (out, h, it') ∧
+      out.map Prod.fst = postorder t ∧ (out.map Prod.fst).Nodup ∧ ∀ i, i ∈ out.map Prod.fst ↔ i ∈ inorder t := by
+  obtain ⟨it', h1⟩ := post_order_iterator_correct isList t h p it0 g hr hd hg
+  refine ⟨_, it', h1, map_fst_postorderP none t, ?_, ?_⟩
+  · rw [map_fst_postorderP]; exact nodup_postorder t hd
+  · rw [map_fst_postorderP]; intro i; exact mem_postorder t i
+
 /-- non-vacuity: the 3-node tree `1 ← 0 → 2` held by a concrete heap -/
 def exHeap : Heap := fun i =>
   if i = 0 then some ⟨some 1, false, some 2⟩ else if i = 1 ∨ i = 2 then some ⟨none, false, none⟩ else none
@@ -139,5 +227,12 @@ example : (iterateAll (fun _ => false) 8 .inOrder exHeap default (some 0)).toOpt
 
 example : (iterateAll (fun _ => false) 8 .preOrder exHeap default (some 0)).toOption.map (fun r => r.1.map Prod.fst)
     = some [0, 1, 2] := by decide
+
+example : (iterateAll (fun _ => false) 8 .postOrder exHeap default (some 0)).toOption.map (fun r => r.1)
+    = some [(1, some 0), (2, some 0), (0, none)] := by decide
+
+/-- non-vacuity of the visited-prefix invariant: the example tree after the tagging pass and one visit -/
+example : ReprV (setTag (tagAll true exHeap (inorder exTree)) 1 false) exTree 1 := by
+  simp [ReprV, exHeap, exTree, root, size, setTag, upd, tagAll, inorder]
 
 end Librfn.C11
